@@ -124,6 +124,23 @@ func build(outPath string, race bool) error {
 	if race {
 		args = append(args, "-race")
 	}
+	// VERIF_REPO: build against another copy of the repository (background sweeps on a
+	// snapshot while /repo itself is being worked on). The registered commands never set
+	// it: they build from /repo's working tree through the replace directive in go.mod.
+	if alt := os.Getenv("VERIF_REPO"); alt != "" && alt != "/repo" {
+		mod, err := os.ReadFile(filepath.Join(harnessDir, "go.mod"))
+		if err != nil {
+			return err
+		}
+		altMod := filepath.Join(filepath.Dir(outPath), "go.mod")
+		if err := os.WriteFile(altMod, []byte(strings.Replace(string(mod), "=> /repo", "=> "+alt, 1)), 0o644); err != nil {
+			return err
+		}
+		if sum, err := os.ReadFile(filepath.Join(harnessDir, "go.sum")); err == nil {
+			os.WriteFile(filepath.Join(filepath.Dir(outPath), "go.sum"), sum, 0o644)
+		}
+		args = append(args, "-modfile="+altMod)
+	}
 	args = append(args, "./vrun")
 	cmd := exec.Command(goTool, args...)
 	cmd.Dir = harnessDir
